@@ -516,6 +516,6 @@ func TestC19(t *testing.T) {
 		}
 	}
 	ev.Check(t, rec, "workload", rec.Pick(30, 400), genCase, runCase)
-	ev.Check(t, rec, "inflight", rec.Pick(30, 700), genFlight, runFlight)
-	ev.Check(t, rec, "rejected", rec.Pick(24, 640), genRejected, runRejected)
+	ev.Check(t, rec, "inflight", rec.Pick(30, 400), genFlight, runFlight)
+	ev.Check(t, rec, "rejected", rec.Pick(24, 200), genRejected, runRejected)
 }
